@@ -28,6 +28,7 @@ MAP = [  # (substring of the commit subject, property)
  ("xsi:type could substitute a value of any registered class", "C04"),
  ("xsi:type derivation check accepted", "C04"),
  ("xsi:type could swap one array type for another", "C04"),
+ ("repeated XML members were appended to the shared default list", "C01"),
  ("auxiliary service before the primary one of the same method name raised TypeError", "C11"),
  ("second method answering to the same public name of a service was dropped silently", "C11"),
  ("HttpPattern without an address matched its method name as a regular expression", "C11"),
